@@ -7,6 +7,7 @@ use std::panic::{self, AssertUnwindSafe};
 pub fn dispatch(f: &[String]) -> String {
     match f[0].as_str() {
         "prog" => prog(&f[1], &f[2]),
+        "pratt" => pratt(&f[1]),
         other => format!("(bad-mode {other})"),
     }
 }
@@ -100,4 +101,39 @@ fn prog(flags: &str, src: &str) -> String {
     };
     let t = code.return_type();
     format!("(accepted {} {})", canon::ty(&t), run_code(&code))
+}
+
+
+/// run PRATT_PARSER itself (no type checking) on an expression and print the grouping
+fn pratt(src: &str) -> String {
+    use pest::Parser;
+    use simplesl_parser::{PRATT_PARSER, Rule, SimpleSLParser};
+    use std::cell::Cell;
+    let r = panic::catch_unwind(AssertUnwindSafe(|| {
+        let mut pairs = match SimpleSLParser::parse(Rule::expr, src) {
+            Ok(p) => p,
+            Err(_) => return "(no-parse)".to_string(),
+        };
+        let pair = pairs.next().unwrap();
+        if pair.as_str().len() != src.trim_end().len() {
+            return format!("(partial-parse {})", pair.as_str().len());
+        }
+        let toks: Vec<String> =
+            pair.clone().into_inner().map(|p| format!("{:?}", p.as_rule())).collect();
+        let n = Cell::new(0usize);
+        let tree = PRATT_PARSER
+            .map_primary(|p| {
+                n.set(n.get() + 1);
+                format!("{:?}{}", p.as_rule(), n.get())
+            })
+            .map_prefix(|op, rhs| format!("({:?} {})", op.as_rule(), rhs))
+            .map_infix(|lhs, op, rhs| format!("({} {:?} {})", lhs, op.as_rule(), rhs))
+            .map_postfix(|lhs, op| format!("({} {:?})", lhs, op.as_rule()))
+            .parse(pair.into_inner());
+        format!("[{}] {}", toks.join(" "), tree)
+    }));
+    match r {
+        Ok(s) => s,
+        Err(_) => format!("(panic {})", take_panic()),
+    }
 }
